@@ -371,6 +371,9 @@ def classify(unit, results, ctags):
     for r in results:
         desc = r.get("description", "")
         pid = r.get("property", "")
+        fn_ = r.get("sourceLocation", {}).get("function", "") or ""
+        if fn_.startswith("h_") and fn_ != unit["entry"]:
+            continue  # body of another harness entry that is not part of this unit
         tags = tags_of(desc)
         m = re.match(r"(\w+)\.postcondition\.(\d+)$", pid)
         text = desc
